@@ -110,6 +110,46 @@ for _v in ("class", "table"):
              "Optional[float] / Literal['np','tf'] / bool with default / dict / Optional[dict]")(_rt(_v))
 
 
+# P1.columns: the column kinds of the SQL-representable domain incl. foreign keys, one symbolic description character ------------------------------
+E = Ellipsis
+COLUMN_CASES = (("int", "[FK(other_tbl.id)] the other", E), ("Optional[int]", "[FK(other_tbl.id)] the other", E), ("str", "[FK(other_tbl.name)] the other", E),
+                ("float", "a ratio", 0.5), ("float", "neg", -1.5), ("int", "big", 10 ** 12), ("str", "text", "it's"), ("Optional[str]", "maybe", E),
+                ("Literal['a', 'b', 'c']", "choice", "b"), ("Optional[Literal['a', 'b']]", "choice", E), ("bool", "flag", True), ("str", "multi. sentence. doc", E),
+                ("complex", "cplx", E), ("bytes", "raw", E), ("datetime", "when", E), ("Optional[bool]", "flag", E), ("int", "zero", 0), ("str", "empty", ""),
+                ("str", "none-str", "None"), ("int", "neg", -7), ("Optional[float]", "maybe ratio", E))
+
+
+def _columns(variant, lo, hi):
+    def body(kind, x):
+        typ, doc, d = COLUMN_CASES[lo]
+        for k in range(lo + 1, hi + 1):
+            if kind == k:
+                typ, doc, d = COLUMN_CASES[k]
+        c = {"typ": typ, "doc": doc + " " + chr(x) + "z"}
+        if d is not E:
+            c["default"] = d
+        ir = {"name": "Config", "doc": "Header line.", "type": "static",
+              "params": OrderedDict((("id", {"typ": "int", "doc": "[PK] the id"}), ("c", c), ("last", {"typ": "str", "doc": "the last"}))), "returns": None}
+        try:
+            node, back = emit_parse(variant, ir)
+        except Exception as e:
+            return "%s emit->parse raised %s: %s" % (variant, type(e).__name__, e)
+        if count_pk(node) != 1:
+            return "emission has %d primary keys" % count_pk(node)
+        return cols_equiv(ir["params"], back["params"])
+
+    return body
+
+
+for _v in ("class", "table"):
+    for _lo in range(0, len(COLUMN_CASES), 3):
+        _hi = min(_lo + 2, len(COLUMN_CASES) - 1)
+        ob("C05", "P1.columns.%s.k%02d" % (_v, _lo), {"kind": R(_lo, _hi), "x": PR}, pre="x != 47", tier="quick" if _v == "class" else "thorough", T=600, tpath=60, funcs=FUNCS,
+           assumes=[ADHOC_SHIMS_DOC], bound="[PK] id, a column of kind %s with description <doc>+' '+X+'z' for every printable X except '/', and a trailing str column: names, order, "
+           "types (nullability), defaults, descriptions and the PK/FK markers come back; exactly one primary key" % "; ".join(
+               "%s%s %r" % (t, "" if d is E else "=%r" % (d,), doc) for t, doc, d in COLUMN_CASES[_lo:_hi + 1]))(_columns(_v, _lo, _hi))
+
+
 def agree(c0, c1, bdef, kind):
     ir = mk(c0, c1, 120, bdef, kind)
     try:
